@@ -318,6 +318,47 @@ func runC17(c *h.Ctx) {
 			}
 		}
 	}
+	// sequences of datetimes of mixed zone-awareness as operands: the pairs are
+	// examined in order, and a pair that needs a time zone (without WithTZ) is
+	// a non-suppressible error where it is met - not something a later
+	// satisfying pair makes up for
+	{
+		ts, tz1, tz0, d, tm, tmz := `"2024-06-14T10:00:00"`, `"2024-06-14T10:00:00+00:00"`, `"2024-06-14T09:00:00+00:00"`, `"2024-06-14"`, `"10:00:00"`, `"10:00:00+00:00"`
+		docs := []string{
+			`{"a":[` + ts + `,` + tz1 + `],"b":` + tz0 + `}`, `{"a":[` + tz1 + `,` + ts + `],"b":` + tz0 + `}`, `{"a":[` + d + `,` + tz1 + `],"b":` + tz0 + `}`, `{"a":[` + tz1 + `,` + d + `,` + ts + `],"b":` + tz0 + `}`,
+			`{"a":[` + tm + `,` + tmz + `],"b":"09:00:00+00:00"}`, `{"a":[` + tmz + `,` + tm + `],"b":"09:00:00+00:00"}`, `{"a":[` + ts + `,` + ts + `],"b":` + tz0 + `}`, `{"a":[` + tz1 + `,` + tz1 + `],"b":"2024-06-14T09:00:00"}`,
+		}
+		forms := []string{"$.a[*].datetime() > $.b.datetime()", "$.a.datetime() > $.b.datetime()", "$.b.datetime() < $.a[*].datetime()", "$ ? (@.a[*].datetime() > @.b.datetime())", "$.a[*].datetime() == $.b.datetime() || $.a[*].datetime() > $.b.datetime()",
+			"$.a[*] ? (@.datetime() > $.b.datetime())", "strict $.a[*].datetime() > $.b.datetime()", "!($.a[*].datetime() <= $.b.datetime())"}
+		for di, d := range docs {
+			for fi, f := range forms {
+				idx++
+				if !c.Mine(idx) {
+					continue
+				}
+				p := cachedPath(f)
+				if p == nil {
+					continue
+				}
+				for v := 0; v < 4; v++ {
+					ec := &ExecCase{Text: f, P: p, Doc: d, TZ: v&1 != 0, Silent: v&2 != 0, Zone: []string{"", "+05:30"}[(di+fi)%2]}
+					o := h.Call("query", p, ec.DocValue(), ec.Opts())
+					c.Eval(1)
+					c.Distinct(f, d, fmt.Sprint(v))
+					verdict, feat, detail := modelVerdict(ec, o)
+					switch {
+					case verdict == "held":
+						c.Held("cast.tzrequired")
+					case strings.HasPrefix(verdict, "skip:"):
+						c.Skip("cast.tzrequired", strings.TrimPrefix(verdict, "skip:"))
+					default:
+						feat["form"] = "operand-sequence"
+						c.Violate("cast.tzrequired", feat, fmt.Sprintf("%s on %s (WithTZ=%v, silent=%v): %s", f, d, ec.TZ, ec.Silent, detail), ec.Case())
+					}
+				}
+			}
+		}
+	}
 	// the same string through two casts in one execution - first without, then
 	// with a precision, and the other way round: each cast is what it is alone
 	for _, s := range grid {
